@@ -23,8 +23,9 @@
   save()/write() -> __zipwrite(): mimetype; _saveXmlObjects (manifest         `pkg`
       entries + styles.xml, content.xml, settings.xml if settings has
       children, meta.xml for the top document only, then the child objects
-      as "Object <n>/"); _savePictures (own, then child objects);
-      thumbnail; extra members (not documentsignatures.xml); manifest
+      in their own folder, d51bb64); _savePictures (own, then child objects);
+      thumbnail; extra members of the document and its objects (not
+      documentsignatures.xml); manifest
       (__manifestxml).  Only the metaxml() inside it changes the document.
 
   Outputs are infosets (`Node` trees; a package is a list of named members), i.e. what an XML parser
@@ -65,11 +66,15 @@ deriving Repr, Inhabited
 /-- `Pictures`: (archive name, media type, opaque content id), in insertion order -/
 abbrev Pics := List (Str × Str × Nat)
 
+abbrev Extras := List (Str × Str × Option Nat)
+
 structure SubDoc where
+  folder : Str             -- its folder relative to the parent, with the trailing "/" ("Object 1/")
   mimetype : Str
   metaEl : Node
   part : Part
   pictures : Pics
+  extras : Extras
 deriving Repr, Inhabited
 
 structure Doc where
@@ -80,7 +85,8 @@ structure Doc where
   pictures : Pics
   objects : List SubDoc
   thumbnail : Option Nat
-  extras : List (Str × Str × Option Nat)
+  thumbType : Str          -- `_thumbnail_mediatype` (u'' unless loaded)
+  extras : Extras
 deriving Repr, Inhabited
 
 structure Cfg where
@@ -157,7 +163,6 @@ def xmlMembers (F : Styles.Cfg) (folder : Str) (entry : Str) (mimetype : Str) (p
             ++ (match metaEl with | some _ => [(str "meta.xml", textXml)] | none => [])
   (ms, es)
 
-def objFolder (i : Nat) : Str := str ("Object " ++ toString (i + 1) ++ "/")
 
 def picMembers (folder : Str) (ps : Pics) : List (Str × Member) × List (Str × Str) :=
   (ps.map (fun (n, _, c) => (folder ++ n, Member.raw c)), ps.map (fun (n, mt, _) => (folder ++ n, mt)))
@@ -172,17 +177,20 @@ def manifestTree (es : List (Str × Str)) : Node :=
 /-- `__zipwrite` on a document whose generator has just been normalised by the `metaxml()` inside -/
 def pkg (F : Styles.Cfg) (d : Doc) : List (Str × Member) :=
   let top := xmlMembers F [] (str "/") d.mimetype d.part (some d.metaEl)
-  let subs := (enumFrom 0 d.objects).map (fun (i, o) => xmlMembers F (objFolder i) (objFolder i) o.mimetype o.part none)
+  let subs := d.objects.map (fun o => xmlMembers F o.folder o.folder o.mimetype o.part none)
   let pics := picMembers [] d.pictures
-  let subpics := (enumFrom 0 d.objects).map (fun (i, o) => picMembers (objFolder i) o.pictures)
+  let subpics := d.objects.map (fun o => picMembers o.folder o.pictures)
   let thumb : List (Str × Member) × List (Str × Str) :=
     match d.thumbnail with
     | some c => ([(str "Thumbnails/thumbnail.png", Member.raw c)],
-                 [(str "Thumbnails/", []), (str "Thumbnails/thumbnail.png", [])])
+                 [(str "Thumbnails/", []), (str "Thumbnails/thumbnail.png", d.thumbType)])
     | none => ([], [])
-  let ex := d.extras.filter (fun (n, _, _) => n != str "META-INF/documentsignatures.xml")
-  let exm : List (Str × Member) := ex.filterMap (fun (n, _, c) => c.map (fun c => (n, Member.raw c)))
-  let exe : List (Str × Str) := ex.map (fun (n, mt, _) => (n, mt))
+  -- `_allExtras`: the document's own extra members, then those of the child objects below their folders
+  let all : List (Str × Str × Str × Option Nat) :=
+    d.extras.map (fun (n, mt, c) => ([], n, mt, c)) ++ d.objects.flatMap (fun o => o.extras.map (fun (n, mt, c) => (o.folder, n, mt, c)))
+  let ex := all.filter (fun (_, n, _, _) => n != str "META-INF/documentsignatures.xml")
+  let exm : List (Str × Member) := ex.filterMap (fun (f, n, _, c) => c.map (fun c => (f ++ n, Member.raw c)))
+  let exe : List (Str × Str) := ex.map (fun (f, n, mt, _) => (f ++ n, mt))
   let members := top.1 ++ subs.flatMap (·.1) ++ pics.1 ++ subpics.flatMap (·.1) ++ thumb.1 ++ exm
   let entries := top.2 ++ subs.flatMap (·.2) ++ pics.2 ++ subpics.flatMap (·.2) ++ thumb.2 ++ exe
   [(str "mimetype", Member.bytes d.mimetype)] ++ members ++ [(str "META-INF/manifest.xml", Member.xml (manifestTree entries))]
@@ -221,5 +229,21 @@ def run (c : Cfg) : List Op → Doc → Doc
 def outs (c : Cfg) : List Op → Doc → List Out
   | [], _ => []
   | op :: r, d => out c op d :: outs c r (step c op d)
+
+/-! ### several live documents in one process
+
+  Each `OpenDocument` owns its tree; `__replaceGenerator` builds a *fresh* generator element for the
+  document it is called on (`meta.Generator(text=TOOLSVERSION)` inside the method), so a call on one
+  document is a step on that document's state and on no other. -/
+
+def modifyAt (f : Doc → Doc) : Nat → List Doc → List Doc
+  | _, [] => []
+  | 0, d :: r => f d :: r
+  | i + 1, d :: r => d :: modifyAt f i r
+
+/-- a history over a set of documents: (index of the document, call) -/
+def runW (c : Cfg) : List (Nat × Op) → List Doc → List Doc
+  | [], w => w
+  | (i, op) :: r, w => runW c r (modifyAt (step c op) i w)
 
 end OdfModel.Render
